@@ -24,6 +24,10 @@ impl RequestId {
     pub fn check(&self, v: i64) -> bool {
         self.0 == v
     }
+    #[cfg(gufo_snmp_verif)]
+    pub fn verif_value(&self) -> i64 {
+        self.0
+    }
 }
 
 #[cfg(test)]
